@@ -97,6 +97,11 @@ struct HeaderBlock {
     /// Set to true if decoding went over the max header list size.
     is_over_size: bool,
 
+    /// Set to true once a malformed field was seen. The block may be decoded
+    /// in several pieces (CONTINUATION frames), the verdict has to survive
+    /// from one piece to the next.
+    is_malformed: bool,
+
     /// Pseudo headers, these are broken out as they must be sent as part of the
     /// headers frame.
     pseudo: Pseudo,
@@ -125,6 +130,7 @@ impl Headers {
                 field_size: calculate_headermap_size(&fields),
                 fields,
                 is_over_size: false,
+                is_malformed: false,
                 pseudo,
             },
             flags: HeadersFlag::default(),
@@ -142,6 +148,7 @@ impl Headers {
                 field_size: calculate_headermap_size(&fields),
                 fields,
                 is_over_size: false,
+                is_malformed: false,
                 pseudo: Pseudo::default(),
             },
             flags,
@@ -207,6 +214,7 @@ impl Headers {
                 fields: HeaderMap::new(),
                 field_size: 0,
                 is_over_size: false,
+                is_malformed: false,
                 pseudo: Pseudo::default(),
             },
             flags,
@@ -372,6 +380,7 @@ impl PushPromise {
                 field_size: calculate_headermap_size(&fields),
                 fields,
                 is_over_size: false,
+                is_malformed: false,
                 pseudo,
             },
             promised_id,
@@ -464,6 +473,7 @@ impl PushPromise {
                 fields: HeaderMap::new(),
                 field_size: 0,
                 is_over_size: false,
+                is_malformed: false,
                 pseudo: Pseudo::default(),
             },
             promised_id,
@@ -872,7 +882,6 @@ impl HeaderBlock {
         decoder: &mut hpack::Decoder,
     ) -> Result<(), Error> {
         let mut reg = !self.fields.is_empty();
-        let mut malformed = false;
         let mut header_list_way_too_large = false;
         let mut headers_size = self.calculate_header_list_size();
         let max_header_list_abuse_size =
@@ -898,10 +907,10 @@ impl HeaderBlock {
             ($field:ident, $val:expr) => {{
                 if reg {
                     tracing::trace!("load_hpack; header malformed -- pseudo not at head of block");
-                    malformed = true;
+                    self.is_malformed = true;
                 } else if self.pseudo.$field.is_some() {
                     tracing::trace!("load_hpack; header malformed -- repeated pseudo");
-                    malformed = true;
+                    self.is_malformed = true;
                 } else {
                     let __val = $val;
                     headers_size +=
@@ -937,13 +946,13 @@ impl HeaderBlock {
                         || name == "proxy-connection"
                     {
                         tracing::trace!("load_hpack; connection level header");
-                        malformed = true;
+                        self.is_malformed = true;
                     } else if name == header::TE && value != "trailers" {
                         tracing::trace!(
                             "load_hpack; TE header not set to trailers; val={:?}",
                             value
                         );
-                        malformed = true;
+                        self.is_malformed = true;
                     } else {
                         reg = true;
 
@@ -987,7 +996,7 @@ impl HeaderBlock {
             return Err(Error::HeaderListWayTooLarge);
         }
 
-        if malformed {
+        if self.is_malformed {
             tracing::trace!("malformed message");
             return Err(Error::MalformedMessage);
         }
